@@ -47,4 +47,18 @@ PROPS = {
                  'replicate/unreplicate/shard/stack_forest/onehot (one-line jnp wrappers)',
                  'prefetch_to_device: propagation of a source exception (only exhaustion is modelled)'],
   ),
+  'C10': dict(
+    modules=['specs.serialization'],
+    bounded=[],
+    trusted_base=COMMON_TB,
+    assumptions=[
+      'to_state_dict / from_state_dict on sub-trees are uninterpreted functions sd / fsd inside the handlers (the tree induction is not mechanised)',
+      'str() on ints is an injective uninterpreted function',
+      'dict comprehensions: last duplicate key wins; distinct keys give one entry per item in iteration order',
+      'namedtuples are records (field-name sequence, name->value map); type(xs)(**fields) requires exactly the field names',
+      'the legacy {name,fields,values} namedtuple encoding is excluded by precondition',
+    ],
+    not_decided=['byte-exact array encoding (dtype, layout, msgpack ext types): NumPy/msgpack behaviour',
+                 'struct.dataclass and FrozenDict handlers (to be added)'],
+  ),
 }
